@@ -321,6 +321,17 @@ def r08_8(run, model):
     run.floor("same-name delegations in the lift/mono environments", n, 4)
 
 
+def _body_converters(model):
+    """transform_expr and the small same-file wrappers that hand a body to it (`transform_in_context`): what 'the body is converted' means"""
+    names = {"transform_expr"}
+    for g in model.fns(LIFT):
+        if g.body is None or g.test or g.name in ("transform_expr", "transform_closure", "lambda_lift"):
+            continue
+        if any(True for _ in S.calls(g.body, "transform_expr")) and not any(True for _ in S.calls(g.body, g.name)):
+            names.add(g.name)
+    return tuple(sorted(names))
+
+
 def r08_10(run, model):
     run.rule("R08.10", "every binder of the lifted language is registered in the conversion scope: transform_closure inserts each closure "
                        "parameter (inside a pushed layer) before the body is converted, as the let arm does for its name - an inner closure "
@@ -328,7 +339,7 @@ def r08_10(run, model):
     f = model.fn("transform_closure", LIFT)
     ins = [c for c in S.walk(f.body) if c["k"] == "MethodCall" and c["method"] == "insert" and S.is_path(c["recv"], "scope") and c["args"] and
            "param" in S.norm_ws(run.facts.text(LIFT, c["args"][0]["sp"]))]
-    body_conv = [c for c in S.calls(f.body, "transform_expr")]
+    body_conv = [c for c in S.calls(f.body, *_body_converters(model))]
     ok = bool(ins) and bool(body_conv) and all((i["sp"][0], i["sp"][1]) < (body_conv[0]["sp"][0], body_conv[0]["sp"][1]) for i in ins)
     run.ob("R08.10", "transform_closure|parameters registered before the body is converted", ok, site(LIFT, f.node["sp"]),
            f"{len(ins)} scope.insert(param..) before transform_expr(body)",
@@ -351,7 +362,7 @@ def r08_12(run, model):
     f = model.fn("lambda_lift", LIFT)
     n = 0
     for loop in S.find(f.body, "For"):
-        reads = any(True for _ in S.calls(loop["body"], "transform_expr"))
+        reads = any(True for _ in S.calls(loop["body"], *_body_converters(model)))
         writes = [c for c in S.walk(loop["body"]) if c["k"] == "MethodCall" and c["method"] == "insert_func"]
         if not reads:
             continue
@@ -538,7 +549,10 @@ def r08_19(run, model):
             if not re.search(what, t):
                 continue
             for c in S.walk(cond):
-                if c["k"] == "MethodCall" and S.is_path(c["recv"], "state") and re.search(r"closure", c["method"]):
+                r = c["recv"] if c["k"] == "MethodCall" else None
+                while r is not None and r["k"] == "Field":   # `state.closures.ty_contains_closure(..)`: the registry may be a part of the state
+                    r = r["base"]
+                if c["k"] == "MethodCall" and S.is_path(r, "state") and re.search(r"closure", c["method"]):
                     out.add(c["method"])
         return out
     sig = preds_on(ll, r"body_ty|ret_ty")
